@@ -16,7 +16,7 @@ use std::sync::Arc;
 use serde_json::json;
 use tantivy::collector::Count;
 use tantivy::query::{
-    intersect_scorers, AllQuery, BooleanQuery, EnableScoring, Exclude, Explanation, Occur, PhraseQuery, Query, RangeQuery,
+    intersect_scorers, AllQuery, BooleanQuery, EnableScoring, Exclude, Explanation, Occur, PhrasePrefixQuery, PhraseQuery, Query, RangeQuery,
     RequiredOptionalScorer, Scorer, SumCombiner, TermQuery, Weight,
 };
 use tantivy::schema::{IndexRecordOption, Schema, FAST, INDEXED, TEXT};
@@ -231,8 +231,16 @@ fn rust_check(truth: &[u32], prog: &[Call], obs: &[Obs]) -> bool {
 struct Driven { prog: Vec<Call>, obs: Vec<Obs>, problems: Vec<String> }
 
 /// Generates a valid program on line (targets >= the scorer's current doc) and records what the scorer answers.
-fn drive(sc: &mut Box<dyn Scorer>, truth: &[u32], ref_scores: Option<&HashMap<u32, f32>>, len: usize, with_danger: bool, rng: &mut Rng) -> Driven {
+fn score_same(r: f32, s: f32, tol: f32) -> bool {
+    if tol == 0.0 { r.to_bits() == s.to_bits() } else { (r - s).abs() <= tol * r.abs().max(s.abs()).max(1e-6) }
+}
+
+/// `tol` = 0: scores compared bit-exactly (single clause, or sums of powers of two); otherwise relative tolerance
+/// (f32 sums whose order may legitimately differ).  `script`: calls to issue first (skipped when not valid).
+#[allow(clippy::too_many_arguments)]
+fn drive(sc: &mut Box<dyn Scorer>, truth: &[u32], ref_scores: Option<&HashMap<u32, f32>>, tol: f32, script: &[Call], len: usize, with_danger: bool, rng: &mut Rng) -> Driven {
     let mut dangling: Option<u32> = None;
+    let mut ended = false;
     let mut prog = vec![];
     let mut obs = vec![];
     let mut problems = vec![];
@@ -261,7 +269,8 @@ fn drive(sc: &mut Box<dyn Scorer>, truth: &[u32], ref_scores: Option<&HashMap<u3
             };
             t.max(base).min(TERMINATED)
         };
-        let call = if let Some(lastt) = dangling {
+        let scripted = match script.get(step) { Some(Call::Seek(t)) if dangling.is_none() && *t >= cur => Some(Call::Seek(*t)), Some(Call::Advance) if dangling.is_none() => Some(Call::Advance), _ => None };
+        let call = if let Some(c) = scripted { c } else if let Some(lastt) = dangling {
             // after a miss only seek_danger with a strictly larger target (or stop)
             if rng.chance(1, 5) || lastt >= TERMINATED { break; }
             Call::Danger(target(rng, lastt + 1))
@@ -311,7 +320,7 @@ fn drive(sc: &mut Box<dyn Scorer>, truth: &[u32], ref_scores: Option<&HashMap<u3
         });
         prog.push(call.clone());
         match o {
-            Err(e) => { obs.push(Obs::Panic(e.clone())); problems.push(format!("panic in {:?}: {}", call, e)); break; }
+            Err(e) => { obs.push(Obs::Panic(e.clone())); problems.push(format!("panic in {:?}: {}", call, e)); ended = true; break; }
             Ok((ob, ret_ok, positioning)) => {
                 if !ret_ok { problems.push(format!("{:?}: returned value differs from doc() afterwards", call)); }
                 if let (Call::Danger(t), Obs::Danger(res, _)) = (&call, &ob) { dangling = if res.is_some() { Some(*t) } else { None }; }
@@ -322,7 +331,7 @@ fn drive(sc: &mut Box<dyn Scorer>, truth: &[u32], ref_scores: Option<&HashMap<u3
                         if d != TERMINATED {
                             let s = sc.score();
                             match rs.get(&d) {
-                                Some(r) if r.to_bits() == s.to_bits() => {}
+                                Some(r) if score_same(*r, s, tol) => {}
                                 other => problems.push(format!("score at doc {} is {} but a fresh sequential pass gives {:?}", d, s, other)),
                             }
                         }
@@ -330,7 +339,33 @@ fn drive(sc: &mut Box<dyn Scorer>, truth: &[u32], ref_scores: Option<&HashMap<u3
                 }
             }
         }
-        if matches!(call, Call::Count) { break; }
+        if matches!(call, Call::Count) { ended = true; break; }
+    }
+    // tail: from wherever the program left a valid scorer, plain advance must enumerate the rest of the list, with the
+    // scores of the sequential pass (documents of later windows / blocks are reached after the program's seeks)
+    if !ended && dangling.is_none() && problems.is_empty() {
+        let r = guarded(|| {
+            let cur = sc.doc();
+            let mut pos = truth.partition_point(|d| *d < cur);
+            let mut d = cur;
+            let mut steps = 0usize;
+            loop {
+                let e = truth.get(pos).copied().unwrap_or(TERMINATED);
+                if d != e { return Some(format!("tail walk after the program: doc {} but the list continues with {}", d, e)); }
+                if d == TERMINATED || steps > 40_000 { return None; }
+                if let Some(rs) = ref_scores {
+                    let s = sc.score();
+                    match rs.get(&d) {
+                        Some(r) if score_same(*r, s, tol) => {}
+                        other => return Some(format!("score at doc {} is {} (reached by advance after the program) but a fresh sequential pass gives {:?}", d, s, other)),
+                    }
+                }
+                d = sc.advance();
+                pos += 1;
+                steps += 1;
+            }
+        });
+        match r { Ok(None) => {} Ok(Some(p)) => problems.push(p), Err(e) => problems.push(format!("panic in tail walk: {}", e)) }
     }
     Driven { prog, obs, problems }
 }
@@ -397,7 +432,7 @@ fn gen_shape(rng: &mut Rng, depth: usize, next_id: &mut usize, max_len: usize, u
 fn progs_term(p: &[Call]) -> String { cf::list(p, |c| c.coq()) }
 fn obs_term(o: &[Obs]) -> String { cf::list(o, |x| x.coq()) }
 
-struct Ctx<'a> { out: &'a mut CaseOut, rng: Rng, coq_budget: usize }
+struct Ctx<'a> { out: &'a mut CaseOut, rng: Rng, coq_budget: usize, score_tol: f32, script: Vec<Call> }
 
 /// Drives `progs` programs on fresh scorers from `make`; `spec_list` is the Coq term of the expected list,
 /// `truth` the same list computed on the Rust side; `model` (if any) the Coq function `prog -> list obs`.
@@ -448,7 +483,8 @@ fn exercise2(ctx: &mut Ctx, what: &str, make: &dyn Fn() -> Box<dyn Scorer>, trut
         let mut rng = ctx.rng.fork();
         let mut sc = match guarded(|| make()) { Ok(s) => s, Err(_) => return };
         let with_danger = p % 2 == 1;
-        let d = drive(&mut sc, truth, ref_scores, len, with_danger, &mut rng);
+        let script = if p == 0 { ctx.script.clone() } else { vec![] };
+        let d = drive(&mut sc, truth, ref_scores, ctx.score_tol, &script, len.max(script.len()), with_danger && script.is_empty(), &mut rng);
         ctx.out.count("programs", 1);
         ctx.out.count("calls", d.prog.len() as u64);
         for c in &d.prog { ctx.out.count(match c { Call::Advance => "call_advance", Call::Seek(_) => "call_seek", Call::Fill => "call_fill_buffer", Call::Bitset(_) => "call_fill_bitset", Call::Danger(_) => "call_seek_danger", Call::Count => "call_count" }, 1); }
@@ -460,22 +496,11 @@ fn exercise2(ctx: &mut Ctx, what: &str, make: &dyn Fn() -> Box<dyn Scorer>, trut
         } else {
             fail_known(ctx, json!({"program": progs_term(&d.prog), "observed": obs_term(&d.obs), "expected": obs_term(&expect)}));
         }
-        let mut f132_done = false;
+        // every finding of this property is fixed in /repo: any problem is an ordinary violation
+        let _ = &union_shape;
         for pr in &d.problems {
             if !ok && known_class.is_some() { continue; }
-            let pj = json!({"what": what, "why": pr, "program": progs_term(&d.prog), "case": desc});
-            match (&union_shape, pr.starts_with("score")) {
-                (Some(sh), true) => {
-                    // F132 needs a fill_buffer before a positioning call; otherwise the only known class is F133
-                    let fill_then_pos = d.prog.iter().enumerate().any(|(i, c)| matches!(c, Call::Fill) && d.prog[i + 1..].iter().any(|c| matches!(c, Call::Advance | Call::Seek(_) | Call::Danger(_))));
-                    if !f132_done {
-                        if fill_then_pos { ctx.out.coq_case("known:F132", format!("has_union {} && fill_then_position {}", sh, progs_term(&d.prog)), pj, true); }
-                        else { ctx.out.coq_case("known:F133", format!("union_over_inter {}", sh), pj, true); }
-                    }
-                    f132_done = true;
-                }
-                _ => ctx.out.spec_checked(false, pj),
-            }
+            ctx.out.spec_checked(false, json!({"what": what, "why": pr, "program": progs_term(&d.prog), "case": desc}));
         }
         if scored { ctx.out.count("score_checks", d.prog.iter().filter(|c| matches!(c, Call::Advance | Call::Seek(_))).count() as u64); }
         if p < coq_progs && ctx.coq_budget > 0 && truth.len() <= 400 {
@@ -513,7 +538,7 @@ fn main() {
     tvh::quiet_panics();
     let thorough = args.thorough();
     let mut out = CaseOut::new(&args.out, HEADER, 60);
-    let mut ctx = Ctx { out: &mut out, rng: Rng::new(args.seed), coq_budget: if thorough { 4000 } else { 900 } };
+    let mut ctx = Ctx { out: &mut out, rng: Rng::new(args.seed), coq_budget: if thorough { 4000 } else { 900 }, score_tol: 0.0, script: vec![] };
     let scale: u64 = if thorough { 8 } else { 1 };
 
     let (_i1, s_small) = small_index(10);
@@ -623,6 +648,26 @@ fn main() {
         exercise2(&mut ctx, "union_bool", &|| w.scorer(r, 1.0).unwrap(), &truth, &format!("(sem_union {})", lists_term(&ls)),
                  Some(&format!("run_union {}", lists_term(&ls))), None, Some(shape.coq()), scoring, 8, 4, json!({"lens": ls.iter().map(|l| l.len()).collect::<Vec<_>>(), "scoring": scoring}));
     }
+    // (3b) dense unions spanning several 4096-windows, scoring on: an in-window seek that skips buffered members of
+    // the target's 64-doc bucket, then the same slots of the next windows (per-slot score combiners must be clean)
+    for i in 0..12 * scale {
+        let k = 2 + (i % 2) as usize;
+        let n = 9_000 + ctx.rng.below(4_000) as u32;
+        let start = ctx.rng.below(200) as u32;
+        let ls: Vec<Arc<Vec<u32>>> = (0..k).map(|_| { let keep = ctx.rng.range(35, 95); Arc::new((start..start + n).filter(|_| ctx.rng.below(100) < keep).collect::<Vec<u32>>()) }).collect();
+        let shape = Shape::Bool { musts: vec![], shoulds: ls.iter().enumerate().map(|(j, l)| Shape::Leaf(l.clone(), j)).collect(), nots: vec![], msm: 1 };
+        let s = searchers[(i % 2) as usize];
+        let q = shape.to_query();
+        let w = weight_of(q.as_ref(), s, true);
+        let r = s.segment_reader(0);
+        let truth = shape.sem();
+        if truth.len() < 100 { continue; }
+        let j = ctx.rng.below(40) as usize;
+        let t1 = truth[j + 3 + ctx.rng.below(8) as usize];
+        ctx.script = vec![Call::Seek(truth[j]), Call::Seek(t1), Call::Seek(t1 + 4096 - 1 - ctx.rng.below(6) as u32), Call::Advance, Call::Seek(t1 + 8192 - ctx.rng.below(8) as u32), Call::Advance];
+        exercise2(&mut ctx, "union_dense", &|| w.scorer(r, 1.0).unwrap(), &truth, "[]", None, None, None, true, 6, 0, json!({"lens": ls.iter().map(|l| l.len()).collect::<Vec<_>>(), "scoring": true}));
+        ctx.script = vec![];
+    }
     for i in 0..40 * scale {
         let k = 3 + (i % 3) as usize;
         let msm = 2 + (i % 2) as usize;
@@ -703,8 +748,10 @@ fn main() {
                 let w = weight_of(q.as_ref(), &s, scoring);
                 let small = truth.len() <= 350;
                 let empty: Vec<u32> = vec![];
+                ctx.score_tol = if single_clause { 0.0 } else { 1e-5 };
                 exercise(ctx, name, &|| w.scorer(r, 1.0).unwrap(), &truth, &cf::ns(if small { &truth } else { &empty }), None, None,
-                         scoring && single_clause, (10 * scale) as usize, if small { 1 } else { 0 }, json!({"query": name, "hits": truth.len(), "scoring": scoring}));
+                         scoring, (10 * scale) as usize, if small { 1 } else { 0 }, json!({"query": name, "hits": truth.len(), "scoring": scoring}));
+                ctx.score_tol = 0.0;
             }
         };
         for j in 0..words.len() { real(&format!("term_{}", words[j]), tq(j), postings[j].clone(), &mut ctx, true); }
@@ -715,6 +762,9 @@ fn main() {
             ("bool +c +d +a", Box::new(BooleanQuery::new(vec![(Occur::Must, tq(2)), (Occur::Must, tq(3)), (Occur::Must, tq(0))])), Box::new(|d| mem(2, d) && mem(3, d) && mem(0, d))),
             ("bool d e f", Box::new(BooleanQuery::new(vec![(Occur::Should, tq(3)), (Occur::Should, tq(4)), (Occur::Should, tq(5))])), Box::new(|d| mem(3, d) || mem(4, d) || mem(5, d))),
             ("bool g h", Box::new(BooleanQuery::new(vec![(Occur::Should, tq(6)), (Occur::Should, tq(7))])), Box::new(|d| mem(6, d) || mem(7, d))),
+            ("bool a b", Box::new(BooleanQuery::new(vec![(Occur::Should, tq(0)), (Occur::Should, tq(1))])), Box::new(|d| mem(0, d) || mem(1, d))),
+            ("bool b c d", Box::new(BooleanQuery::new(vec![(Occur::Should, tq(1)), (Occur::Should, tq(2)), (Occur::Should, tq(3))])), Box::new(|d| mem(1, d) || mem(2, d) || mem(3, d))),
+            ("bool +(a b) +c", Box::new(BooleanQuery::new(vec![(Occur::Must, Box::new(BooleanQuery::new(vec![(Occur::Should, tq(0)), (Occur::Should, tq(1))]))), (Occur::Must, tq(2))])), Box::new(|d| (mem(0, d) || mem(1, d)) && mem(2, d))),
             ("bool +b -c", Box::new(BooleanQuery::new(vec![(Occur::Must, tq(1)), (Occur::MustNot, tq(2))])), Box::new(|d| mem(1, d) && !mem(2, d))),
             ("bool +c -d -e", Box::new(BooleanQuery::new(vec![(Occur::Must, tq(2)), (Occur::MustNot, tq(3)), (Occur::MustNot, tq(4))])), Box::new(|d| mem(2, d) && !mem(3, d) && !mem(4, d))),
             ("bool +c (e f)", Box::new(BooleanQuery::new(vec![(Occur::Must, tq(2)), (Occur::Should, tq(4)), (Occur::Should, tq(5))])), Box::new(|d| mem(2, d))),
@@ -735,6 +785,79 @@ fn main() {
             let q = PhraseQuery::new(ph.iter().map(|j| Term::from_field_text(tf, words[*j])).collect());
             let truth: Vec<u32> = (0..ndocs).filter(|d| texts[*d as usize].windows(ph.len()).any(|w| w == &ph[..])).collect();
             real(&format!("phrase {:?}", ph), Box::new(q), truth, &mut ctx, true);
+        }
+    }
+
+    // ---------------- (6) phrase-prefix (2-term = SinglePrefix, 3-term = MultiPrefix) and phrase scorers over a corpus
+    // where the terms sit at different positions in consecutive candidate documents ----------------
+    {
+        let mut sb = Schema::builder();
+        let tf = sb.add_text_field("t", TEXT);
+        let index = Index::create_in_ram(sb.build());
+        let mut w: IndexWriter = index.writer_with_num_threads(1, 50_000_000).unwrap();
+        let vocab = ["big", "wolf", "wonder", "word", "wo", "bad", "tag", "x", "y", "bigger"];
+        let ndocs: u32 = if thorough { 12_000 } else { 5_000 };
+        let mut rng = ctx.rng.fork();
+        let mut texts: Vec<Vec<&str>> = vec![];
+        for d in 0..ndocs {
+            let len = 1 + rng.below(7) as usize;
+            let mut toks: Vec<&str> = (0..len).map(|_| *rng.pick(&vocab)).collect();
+            // plant "big wo*" / "big bad wo*" at a varying position in runs of consecutive documents
+            if d % 5 < 3 && rng.chance(2, 3) {
+                let pos = rng.below(toks.len() as u64) as usize;
+                let suffix = *rng.pick(&["wolf", "wonder", "word", "wo", "x"]);
+                let mut ins = vec!["big"]; if rng.chance(1, 3) { ins.push("bad"); } ins.push(suffix);
+                for (k, t) in ins.into_iter().enumerate() { toks.insert(pos + k, t); }
+            }
+            w.add_document(doc!(tf => toks.join(" "))).unwrap();
+            texts.push(toks);
+        }
+        w.commit().unwrap();
+        let s = index.reader().unwrap().searcher();
+        assert_eq!(s.segment_readers().len(), 1);
+        let r = s.segment_reader(0);
+        let term = |t: &str| Term::from_field_text(tf, t);
+        let pp_match = |toks: &Vec<&str>, ph: &[&str]| -> bool {
+            let n = ph.len();
+            toks.len() >= n && toks.windows(n).any(|w| w[..n - 1] == ph[..n - 1] && w[n - 1].starts_with(ph[n - 1]))
+        };
+        let ph_match = |toks: &Vec<&str>, ph: &[&str]| -> bool { toks.len() >= ph.len() && toks.windows(ph.len()).any(|w| w == ph) };
+        let has = |toks: &Vec<&str>, t: &str| toks.iter().any(|x| *x == t);
+        let run = |name: &str, q: Box<dyn Query>, truth: Vec<u32>, ctx: &mut Ctx, single: bool| {
+            for scoring in [false, true] {
+                let w = weight_of(q.as_ref(), &s, scoring);
+                let small = truth.len() <= 350;
+                let empty: Vec<u32> = vec![];
+                ctx.score_tol = if single { 0.0 } else { 1e-5 };
+                exercise(ctx, name, &|| w.scorer(r, 1.0).unwrap(), &truth, &cf::ns(if small { &truth } else { &empty }), None, None,
+                         scoring, (12 * scale) as usize, if small { 1 } else { 0 }, json!({"query": name, "hits": truth.len(), "scoring": scoring}));
+                ctx.score_tol = 0.0;
+            }
+        };
+        let pps: Vec<Vec<&str>> = vec![vec!["big", "wo"], vec!["bad", "wo"], vec!["big", "bad", "wo"], vec!["x", "big", "wo"], vec!["big", "big"]];
+        for ph in &pps {
+            let q = PhrasePrefixQuery::new(ph.iter().map(|t| term(t)).collect());
+            let truth: Vec<u32> = (0..ndocs).filter(|d| pp_match(&texts[*d as usize], ph)).collect();
+            run(&format!("phraseprefix {}", ph.join("_")), Box::new(q), truth, &mut ctx, true);
+        }
+        for ph in [vec!["big", "wolf"], vec!["big", "bad", "wolf"], vec!["wo", "big"]] {
+            let q = PhraseQuery::new(ph.iter().map(|t| term(t)).collect());
+            let truth: Vec<u32> = (0..ndocs).filter(|d| ph_match(&texts[*d as usize], &ph)).collect();
+            run(&format!("phrase {}", ph.join("_")), Box::new(q), truth, &mut ctx, true);
+        }
+        // inside boolean queries: the phrase-prefix scorer is driven by seek / seek_danger of the intersection / exclusion
+        let ppq = |ph: &[&str]| -> Box<dyn Query> { Box::new(PhrasePrefixQuery::new(ph.iter().map(|t| term(t)).collect())) };
+        let tq = |t: &str| -> Box<dyn Query> { Box::new(TermQuery::new(term(t), IndexRecordOption::WithFreqs)) };
+        let combos: Vec<(&str, Box<dyn Query>, Box<dyn Fn(&Vec<&str>) -> bool + '_>)> = vec![
+            ("bool +pp(big wo) +tag", Box::new(BooleanQuery::new(vec![(Occur::Must, ppq(&["big", "wo"])), (Occur::Must, tq("tag"))])), Box::new(|t| pp_match(t, &["big", "wo"]) && has(t, "tag"))),
+            ("bool +pp(big bad wo) +y", Box::new(BooleanQuery::new(vec![(Occur::Must, ppq(&["big", "bad", "wo"])), (Occur::Must, tq("y"))])), Box::new(|t| pp_match(t, &["big", "bad", "wo"]) && has(t, "y"))),
+            ("bool +tag -pp(big wo)", Box::new(BooleanQuery::new(vec![(Occur::Must, tq("tag")), (Occur::MustNot, ppq(&["big", "wo"]))])), Box::new(|t| has(t, "tag") && !pp_match(t, &["big", "wo"]))),
+            ("bool pp(big wo) pp(bad wo)", Box::new(BooleanQuery::new(vec![(Occur::Should, ppq(&["big", "wo"])), (Occur::Should, ppq(&["bad", "wo"]))])), Box::new(|t| pp_match(t, &["big", "wo"]) || pp_match(t, &["bad", "wo"]))),
+            ("bool +x +(pp(big wo) bigger)", Box::new(BooleanQuery::new(vec![(Occur::Must, tq("x")), (Occur::Must, Box::new(BooleanQuery::new(vec![(Occur::Should, ppq(&["big", "wo"])), (Occur::Should, tq("bigger"))])))])), Box::new(|t| has(t, "x") && (pp_match(t, &["big", "wo"]) || has(t, "bigger")))),
+        ];
+        for (name, q, pred) in combos {
+            let truth: Vec<u32> = (0..ndocs).filter(|d| pred(&texts[*d as usize])).collect();
+            run(name, q, truth, &mut ctx, false);
         }
     }
 
